@@ -804,7 +804,7 @@ Proof.
         split; [exact Hio|]. split; [reflexivity|]. split; [apply sp_same_refl|]. split; [reflexivity|].
         right. split; [exact Hlen|]. split; [reflexivity|]. right. split; [reflexivity|]. rewrite Hs. left. reflexivity.
       * specialize (Hpos Hne). destruct (N.eqb_spec n 0) as [Hn0|Hn0]; [lia|].
-        set (r1 := mkR (consume_output (rsp r) n) (rwriteable r) true).
+        set (r1 := mkR (consume_output (rsp r) n) (rwriteable r) true (raborted r)).
         pose proof (IH r1 w1) as HI. destruct (poll_output f r1 w1) as [[p r'] w'].
         unfold po_post in HI |- *. cbn [rsp rwriteable rlock r1] in HI. cbv zeta in HI |- *.
         rewrite consume_output_buffer, Eo in HI. rewrite Eo.
@@ -934,11 +934,11 @@ Lemma perr_kind_rb e : In (perr_kind e) rb_kinds.
 Proof. destruct e; cbn [perr_kind rb_kinds In]; tauto. Qed.
 
 Definition bl_after (f : nat) (r : rstate) (w : world) (p' : sp) : res (option N * rstate) :=
-  let r1 := mkR p' (rwriteable r) (rlock r) in
+  let r1 := mkR p' (rwriteable r) (rlock r) (raborted r) in
   if is_record_boundary p' then Ok (None, r1) w
   else
     let p2 := compress p' in
-    let r2 := mkR p2 (rwriteable r) (rlock r) in
+    let r2 := mkR p2 (rwriteable r) (rlock r) (raborted r) in
     match await_read (io_fuel w 0) false (sinput_space p2) w with
     | Ok (inl []) w' => Ok (Some EK_UnexpectedEof, r2) w'
     | Ok (inl b) w' => boundary_loop maxc f b r2 w'
@@ -951,7 +951,7 @@ Lemma boundary_loop_S f new r w : boundary_loop maxc (S f) new r w =
   | StPanic n => Halt (OPanic (1000 + n)) w
   | StOk p' _ => bl_after f r w p'
   | StErr p' EAbortRequest _ => bl_after f r w p'
-  | StErr p' e _ => Ok (Some (perr_kind e), mkR p' (rwriteable r) (rlock r)) w
+  | StErr p' e _ => Ok (Some (perr_kind e), mkR p' (rwriteable r) (rlock r) (raborted r)) w
   end.
 Proof. reflexivity. Qed.
 
@@ -967,20 +967,20 @@ Proof.
   assert (Hafter : forall p', bl_after f r w p' = Ok (e, r') w' -> rb_post r w e r' w').
   { intros p' Ea. unfold bl_after in Ea. cbv zeta in Ea.
     destruct (is_record_boundary p') eqn:Eb.
-    - injection Ea as <- <- <-. unfold rb_post. cbn [rsp rwriteable rlock]. repeat split; exact Eb.
+    - injection Ea as <- <- <-. unfold rb_post. cbn [rsp rwriteable rlock raborted]. repeat split; exact Eb.
     - destruct (await_read (io_fuel w 0) false (sinput_space (compress p')) w) as [[b|k] w1|o w1] eqn:ER;
         [| |discriminate Ea].
       + apply await_read_spec in ER. destruct ER as (R1 & R2 & _). destruct b as [|x b'].
         * injection Ea as <- <- <-. unfold rb_post. cbn [rsp rwriteable rlock rb_kinds In].
           repeat split; try assumption. tauto.
-        * apply IH in Ea. unfold rb_post in *. cbn [rsp rwriteable rlock] in Ea.
+        * apply IH in Ea. unfold rb_post in *. cbn [rsp rwriteable rlock raborted] in Ea.
           rewrite R1, R2 in Ea. exact Ea.
       + apply await_read_spec in ER. destruct ER as (R1 & R2 & R3). specialize (R3 k eq_refl). subst k.
         injection Ea as <- <- <-. unfold rb_post. cbn [rsp rwriteable rlock rb_kinds In].
         repeat split; try assumption. tauto. }
   destruct (sparse maxc (rsp r) new None) as [p' s|p' pe s|n]; [apply (Hafter p'); exact E| |discriminate E].
   destruct pe; try (apply (Hafter p'); exact E);
-    injection E as <- <- <-; unfold rb_post; cbn [rsp rwriteable rlock];
+    injection E as <- <- <-; unfold rb_post; cbn [rsp rwriteable rlock raborted];
     (repeat split; try reflexivity); unfold rb_kinds; cbn [In]; tauto.
 Qed.
 
@@ -1022,7 +1022,7 @@ Definition close_finish (r3 : rstate) (disc code : N) (w2 : world) : res (parser
 Lemma close_tail_unfold r1 disc code w1 : close_tail maxc r1 disc code w1 =
   match set_stream (rsp r1) None with
   | SetOk p2 =>
-    match record_boundary maxc (mkR p2 (rwriteable r1) (rlock r1)) w1 with
+    match record_boundary maxc (mkR p2 (rwriteable r1) (rlock r1) (raborted r1)) w1 with
     | Halt o w' => Halt o w'
     | Ok (Some k2, _) w2 => Ok (inr k2) w2
     | Ok (None, r3) w2 => close_finish r3 disc code w2
@@ -1107,14 +1107,14 @@ Theorem close_tail_log r1 disc code w1 x w' :
   close_tail maxc r1 disc code w1 = Ok x w' -> (x = inr EK_Reset \/ exists rp, x = inl rp) ->
   exists p2 r3 w2 ep,
     set_stream (rsp r1) None = SetOk p2 /\
-    record_boundary maxc (mkR p2 (rwriteable r1) (rlock r1)) w1 = Ok (None, r3) w2 /\
+    record_boundary maxc (mkR p2 (rwriteable r1) (rlock r1) (raborted r1)) w1 = Ok (None, r3) w2 /\
     wlog w2 = wlog w1 /\ rwriteable r3 = rwriteable r1 /\ is_record_boundary (rsp r3) = true /\
     epilogue (r_id (sreq (rsp r3))) disc code (if rwriteable r1 then ROLE_OUTPUT_STREAMS else []) = Some ep /\
     wlog w' = wlog w2 ++ output_buffer (rsp r3) ++ ep /\ same_but_io w2 w'.
 Proof.
   rewrite close_tail_unfold. intros E Hx.
   destruct (set_stream (rsp r1) None) as [p2| |]; [|discriminate E|discriminate E].
-  destruct (record_boundary maxc (mkR p2 (rwriteable r1) (rlock r1)) w1) as [[[k2|] r3] w2|o w2] eqn:ERB;
+  destruct (record_boundary maxc (mkR p2 (rwriteable r1) (rlock r1) (raborted r1)) w1) as [[[k2|] r3] w2|o w2] eqn:ERB;
     [| |discriminate E].
   - exfalso. apply record_boundary_spec in ERB. destruct ERB as (_ & _ & _ & _ & Hk).
     injection E as <- <-. destruct Hx as [Hx|[rp Hx]]; [|discriminate Hx]. injection Hx as ->.
@@ -1141,7 +1141,7 @@ Theorem close_tail_log_shape maxc r1 disc code w1 x w' :
   close_tail maxc r1 disc code w1 = Ok x w' -> (x = inr EK_Reset \/ exists rp, x = inl rp) ->
   exists p2 r3 w2 ast ps,
     set_stream (rsp r1) None = SetOk p2 /\
-    record_boundary maxc (mkR p2 (rwriteable r1) (rlock r1)) w1 = Ok (None, r3) w2 /\
+    record_boundary maxc (mkR p2 (rwriteable r1) (rlock r1) (raborted r1)) w1 = Ok (None, r3) w2 /\
     wlog w2 = wlog w1 /\ exit_to_end disc code = Some (ast, ps) /\
     let id := r_id (sreq (rsp r3)) in
     wlog w' = wlog w2 ++ output_buffer (rsp r3) ++
@@ -1323,7 +1323,7 @@ Definition ex_sp : sp := mkSp (zeros 32) 0 0 0 0 [9; 9; 9; 9; 9] 2 (mkReq 1 1 1 
 
 (* close on a keep-alive request with three bytes of parser output pending *)
 Example ex_close :
-  match close_tail 10 (mkR ex_sp true false) EXIT_Complete 0 (ex_world [2; 0; 1; 9; 3] false) with
+  match close_tail 10 (mkR ex_sp true false false) EXIT_Complete 0 (ex_world [2; 0; 1; 9; 3] false) with
   | Ok (inl _) w' =>
       wlog w' = [7] ++ [9; 9; 9] ++ hdr_encode RT_Stdout 1 0 0 ++ hdr_encode RT_Stderr 1 0 0 ++ end_record 0 0 1
   | _ => False
@@ -1331,7 +1331,7 @@ Example ex_close :
 Proof. vm_compute. reflexivity. Qed.
 
 Example ex_poll_output_wake :
-  match poll_output 10 (mkR ex_sp true false) (ex_world [2; 0; 1] false) with
+  match poll_output 10 (mkR ex_sp true false false) (ex_world [2; 0; 1] false) with
   | (PWake, r', w') => wlog w' = [7; 9; 9] /\ output_buffer (rsp r') = [9] /\ rlock r' = true
   | _ => False
   end.
